@@ -26,7 +26,7 @@ def run(chk):
     q = chk.quick
     chk.add_mc(mc("MC_Builder", "MC_Builder.cfg", workers=4))
     chk.add_mc(mc("MC_BitIO", "MC_BitIO.cfg", workers=12, timeout=3000))
-    t = record("roundtrip", chk.path("rt.ndjson"), seed=chk.seed, per_type=14 if q else 400, hostile=30 if q else 800, timeout=3000)
+    t = record("roundtrip", chk.path("rt.ndjson"), seed=chk.seed, per_type=14 if q else 120, hostile=30 if q else 300, timeout=3000)
     r = tv("Trace_Roundtrip", "Trace_Roundtrip.cfg", t, shards=12, tag="C01")
     chk.add_tv("roundtrip", r)
     report_rejects(chk, r, sig, lambda ev, d: "round trip session violates the normal-form specification (%s %s)" % (ev["ev"], ev.get("variant", ev.get("number"))))
